@@ -62,6 +62,11 @@ func (c Config) GProp() string {
 	return c.GPath
 }
 
+// PlainStore: the index keeps the raw vectors (n<id>v, rewritten by every Set) and nothing else.
+func (c Config) PlainStore() bool {
+	return c.Quant == "none" && c.Metric != "hamming" && c.Metric != "jaccard"
+}
+
 func (c Config) Bucket() string { return "index/vectorVamana/" + c.VProp() }
 
 func (c Config) vSegs() []string { return strings.Split(c.VProp(), ".") }
@@ -486,6 +491,8 @@ type Dump struct {
 	UUIDNode map[uuid.UUID]uint64
 	HasField map[uint64]bool // node id -> the stored document has the vector property (at the schema's path)
 	DocVec   map[uint64][]float32 // node id -> the vector the stored document carries at that path
+	RawVec   map[uint64][]float32 // node id -> the raw vector persisted in the index (n<id>v), when there is one
+	Docs     map[uint64]map[string]any // node id -> the decoded stored document
 	HasDoc   map[uint64]bool
 	GVal     map[uint64]int64
 	Free     []uint64
@@ -497,7 +504,7 @@ type Dump struct {
 
 func (s *Sim) Dump() (*Dump, error) {
 	d := &Dump{Nodes: map[uint64][]uint64{}, Vecs: map[uint64]bool{}, NodeUUID: map[uint64]uuid.UUID{}, UUIDNode: map[uuid.UUID]uint64{},
-		HasField: map[uint64]bool{}, DocVec: map[uint64][]float32{}, HasDoc: map[uint64]bool{}, GVal: map[uint64]int64{}, NextFree: 2}
+		HasField: map[uint64]bool{}, DocVec: map[uint64][]float32{}, RawVec: map[uint64][]float32{}, Docs: map[uint64]map[string]any{}, HasDoc: map[uint64]bool{}, GVal: map[uint64]int64{}, NextFree: 2}
 	err := s.Sh.VerifDB().Read(func(bm diskstore.BucketManager) error {
 		b, err := bm.Get(s.Cfg.Bucket())
 		if err != nil {
@@ -514,6 +521,7 @@ func (s *Sim) Dump() (*Dump, error) {
 			}
 			if id, ok := conversion.NodeIdFromKey(k, 'v'); ok {
 				d.Vecs[id] = true
+				d.RawVec[id] = append([]float32{}, conversion.BytesToFloat32(append([]byte{}, v...))...)
 				return nil
 			}
 			if id, ok := conversion.NodeIdFromKey(k, 'q'); ok {
@@ -563,6 +571,7 @@ func (s *Sim) Dump() (*Dump, error) {
 					d.Problems = append(d.Problems, fmt.Sprintf("document of node %d does not decode", id))
 					return nil
 				}
+				d.Docs[id] = m
 				if x := LookupPath(m, s.Cfg.vSegs()); x != nil {
 					d.HasField[id] = true
 					if arr, ok := x.([]any); ok {
@@ -833,13 +842,22 @@ func (s *Sim) QueryDists(q []float32, ids []uint64) (map[uint64]float32, error) 
 // the vector is handed to a scratch instance of the repository's vector store opened on the persisted
 // bucket (so it is encoded by the quantiser as trained right now, or kept raw before training) and
 // DistanceFromFloat(q) is evaluated on that point. Nothing is flushed.
-func (s *Sim) DocDists(q []float32, d *Dump) (map[uint64]float32, error) {
+//
+// A TRAINED product quantiser needs care: the points present at training time carry the k-means
+// labels (euclidean assignment), later Sets the nearest centroid under the configured metric, so
+// re-encoding a document's vector reproduces the stored code only for vectors set after the training
+// (and the raw vectors persisted beside the codes are no reference either: KMeans initialises its
+// centroids as sub-slices of the data and averages into them, see notes/C03.md). There only the nodes
+// in `postTrain` are judged: those whose document vector changed in a batch that started with the
+// quantiser already trained — an index in step has re-encoded exactly those with `encode`.
+func (s *Sim) DocDists(q []float32, d *Dump, postTrain map[uint64]bool) (map[uint64]float32, error) {
 	r := map[uint64]float32{}
+	trainedPQ := s.Cfg.Quant == "pq" && d.Quant != ""
 	err := s.WithStore(func(st vectorstore.VectorStore) error {
 		fn := st.DistanceFromFloat(q)
 		for _, id := range d.Live() {
 			vec, ok := d.DocVec[id]
-			if !ok || len(vec) != s.Cfg.Dim {
+			if !ok || len(vec) != s.Cfg.Dim || (trainedPQ && !postTrain[id]) {
 				continue
 			}
 			p, err := st.Set(id, vec)
@@ -851,6 +869,129 @@ func (s *Sim) DocDists(q []float32, d *Dump) (map[uint64]float32, error) {
 		return nil
 	})
 	return r, err
+}
+
+// ------------------------------------------------------------------------------------ flattened documents (model lines)
+
+// VecTags names vectors by small numbers within one model line.
+type VecTags map[string]int
+
+func (t VecTags) Of(v []float32) int {
+	k := vecStr(v)
+	if n, ok := t[k]; ok {
+		return n
+	}
+	n := len(t) + 1
+	t[k] = n
+	return n
+}
+
+func asVec(x any) ([]float32, bool) {
+	switch a := x.(type) {
+	case []float32:
+		return a, true
+	case []any:
+		if len(a) == 0 {
+			return nil, false
+		}
+		v := make([]float32, len(a))
+		for i, e := range a {
+			f, ok := e.(float32)
+			if !ok {
+				return nil, false
+			}
+			v[i] = f
+		}
+		return v, true
+	}
+	return nil, false
+}
+
+// FlatDoc: one "path:leaf" entry per leaf of the document, paths as the key bytes joined by '.', sorted;
+// leaves N (nil) D ("_delete") V<tag> (float32 array) O (empty object) X (anything else). "{}": empty.
+func FlatDoc(m map[string]any, tags VecTags) string {
+	type ent struct {
+		path []int
+		s    string
+	}
+	var es []ent
+	var walk func(prefix []int, m map[string]any)
+	walk = func(prefix []int, m map[string]any) {
+		for k, x := range m {
+			p := append(append([]int{}, prefix...), keyCode(k))
+			leaf := "X"
+			switch t := x.(type) {
+			case nil:
+				leaf = "N"
+			case string:
+				if t == shard.DELETEVALUE {
+					leaf = "D"
+				}
+			case map[string]any:
+				if len(t) > 0 {
+					walk(p, t)
+					continue
+				}
+				leaf = "O"
+			default:
+				if v, ok := asVec(x); ok {
+					leaf = "V" + strconv.Itoa(tags.Of(v))
+				}
+			}
+			es = append(es, ent{p, leaf})
+		}
+	}
+	walk(nil, m)
+	sort.Slice(es, func(i, j int) bool {
+		a, b := es[i].path, es[j].path
+		for k := 0; k < len(a) && k < len(b); k++ {
+			if a[k] != b[k] {
+				return a[k] < b[k]
+			}
+		}
+		return len(a) < len(b)
+	})
+	if len(es) == 0 {
+		return "{}"
+	}
+	out := make([]string, len(es))
+	for i, e := range es {
+		ps := make([]string, len(e.path))
+		for k, c := range e.path {
+			ps[k] = strconv.Itoa(c)
+		}
+		out[i] = strings.Join(ps, ".") + ":" + e.s
+	}
+	return strings.Join(out, ",")
+}
+
+// keyCode: document keys are single letters in this harness; the model's keys are numbers.
+func keyCode(k string) int {
+	c := 0
+	for _, b := range []byte(k) {
+		c = c*256 + int(b)
+	}
+	return c
+}
+
+func (c Config) PathCodes() string {
+	var ps []string
+	for _, k := range c.vSegs() {
+		ps = append(ps, strconv.Itoa(keyCode(k)))
+	}
+	return strings.Join(ps, ".")
+}
+
+func sameVec(a, b []float32) bool {
+	if len(a) != len(b) {
+		return false
+	}
+	for i := range a {
+		if math.Float32bits(a[i]) != math.Float32bits(b[i]) {
+			return false
+		}
+	}
+	return true
 }
 
 // PairDists: DistanceFromPoint(a)(b) for all pairs of stored vectors.
